@@ -210,7 +210,8 @@ prop(
             dict(name="c14rate", pkg="c14", test="TestC14Rate", access=[FILE_ACCESS], timeout_quick=300, timeout_thorough=3000),
             dict(name="c14ctors", pkg="c14", test="TestC14Ctors", access=[FILE_ACCESS], timeout_quick=300, timeout_thorough=3000),
             dict(name="c14config", pkg="c14", test="TestC14Config", access=[FILE_ACCESS], timeout_quick=300, timeout_thorough=3000),
-            dict(name="c14fuzz", pkg="c14", test="TestC14Fuzz", access=[FILE_ACCESS], timeout_quick=300, timeout_thorough=3000)],
+            dict(name="c14fuzz", pkg="c14", test="TestC14Fuzz", access=[FILE_ACCESS], timeout_quick=300, timeout_thorough=3000),
+            dict(name="c14cli", pkg="c14", test="TestC14CLI", access=[FILE_ACCESS], timeout_quick=300, timeout_thorough=3000)],
     key=c14_key,
     rule="grammar-based generators with near-miss mutation (delete/duplicate/insert/replace over 0-9 / . - + e µ s m h n u : , space) for rate and stages strings "
          "(thorough: every string of up to 4 symbols for ParseRate), constructor argument tuples (valid and invalid distributions, frequencies <= 0, weights), config ASTs with any subset "
@@ -365,4 +366,5 @@ for _pid, _lst in GLUE.items():
 
 # the pool conservation histories also decide C01's "never double-counted": an iteration that is
 # both executed and reported dropped shows as started + dropped > requested
-PROPS["C01"]["stages"] = PROPS["C01"]["stages"] + [POOL_STAGE]
+PROPS["C01"]["stages"] = PROPS["C01"]["stages"] + [POOL_STAGE] + [st for st in PROPS["C02"]["stages"] if st["name"] == "c02runs"]
+PROPS["C01"]["drift"] = PROPS["C01"]["drift"] + TRIGGER_GLUE
